@@ -71,7 +71,7 @@ def _chown_tree(root, uid):
     os.lchown(root, uid, uid)
 
 
-def run(cut, tree, argv, stdin=b"", tty=None, uid=0, env=None, timeout=8, strace=None, sanitize=False, keep=False, exe=None):
+def run(cut, tree, argv, stdin=b"", tty=None, uid=0, env=None, timeout=8, strace=None, sanitize=False, keep=False, exe=None, root_owned=()):
     """tree: Tree; argv: list of bytes (without argv[0]); tty: None (no controlling terminal) or list of answer byte strings.
     strace: None | {'trace': True} | {'inject': 'write:error=ENOSPC:when=3'}"""
     os.makedirs(BOXROOT, exist_ok=True)
@@ -88,6 +88,8 @@ def run(cut, tree, argv, stdin=b"", tty=None, uid=0, env=None, timeout=8, strace
     os.chmod(top, 0o755)
     if uid != 0:
         _chown_tree(root, uid); _chown_tree(tmpd, uid)
+        for q in root_owned:     # files the unprivileged user does not own (and can only use as their mode for 'others' allows)
+            os.lchown(os.path.join(root.encode(), q), 0, 0)
     before = snapshot(root)
     e = {"PATH": "/usr/bin:/bin", "TMPDIR": tmpd, "LC_ALL": "C", "HOME": top}
     if sanitize:
